@@ -5,6 +5,7 @@ HARNESSES = {
     "codec_pbt": dict(sources=["codec_pbt.cpp"], variant="san"),
     "api_pbt": dict(sources=["api_pbt.cpp"], variant="san"),
     "table_pbt": dict(sources=["table_pbt.cpp"], variant="san"),
+    "schema_pbt": dict(sources=["schema_pbt.cpp"], variant="san"),
 }
 
 _CODEC_ESS_KINDS = ["kind=v2.track_data", "kind=v2.beat_data", "kind=v2.quick_cues", "kind=v2.loops", "kind=v2.overview_waveform",
@@ -55,6 +56,28 @@ CHECKS = {
         dict(prop="C11", harness="api_pbt", quick=dict(count=1600, workers=8), thorough=dict(count=50000, workers=16),
              essential=_ALL_SCHEMAS + ["set_relative_path", "remove-with-subtree", "move-non-last-sibling", "remove-member-track",
                                        "track-with-performance-data"])]),
+    "C12": dict(level="exploration", exhaustive=True,
+                exhaustive_scope="the 18 schemas x {on-disk, temporary} are enumerated completely against all 62 reference dumps; the normaliser property is sampled",
+                parts=[
+        dict(prop="C12", harness="schema_pbt", quick=dict(count="enum", workers=6), thorough=dict(count="enum", workers=6),
+             essential=_ALL_SCHEMAS + ["form=on-disk", "form=temporary", "several-references"]),
+        dict(prop="C12.norm", harness="schema_pbt", quick=dict(count=4000, workers=4), thorough=dict(count=200000, workers=16),
+             essential=["norm:equal-under-respelling", "norm:token-deleted", "norm:token-substituted"]),
+    ]),
+    "C13": dict(level="exploration", exhaustive=True,
+                exhaustive_scope="every version triple in major 0..4 x minor 0..25 x patch 0..4 in both directory layouts, the 8-entry presence matrix, 20 outlier triples x 2 layouts, both 1.18.0 variants",
+                parts=[
+        dict(prop="C13", harness="schema_pbt", quick=dict(count="enum", workers=8), thorough=dict(count="enum", workers=16),
+             essential=["supported-triple", "supported-triple-in-other-layout", "unsupported-neighbour", "unsupported-triple", "outlier",
+                        "presence-matrix", "variant-marker", "3.0.0"]),
+    ]),
+    "C17": dict(level="exploration", parts=[
+        dict(prop="C17", harness="schema_pbt", quick=dict(count=3200, workers=8), thorough=dict(count=120000, workers=16),
+             essential=_ALL_SCHEMAS + ["file=m.db", "file=p.db", "effective-mutant", "equivalent-mutant"] +
+                       [f + k for f in ("1.x:", "2.x:") for k in ['drop-table', 'rename-table', 'add-table', 'drop-view', 'rename-view', 'add-view', 'add-column', 'drop-column', 'rename-column', 'change-type', 'add-notnull', 'add-default', 'drop-index', 'add-index', 'flip-unique', 'reorder-columns']]),
+        dict(prop="C17.refs", harness="schema_pbt", quick=dict(count="enum", workers=8), thorough=dict(count="enum", workers=8),
+             essential=[x for x in _ALL_SCHEMAS if x != "schema=1.6.0"]),
+    ]),
     "C14": dict(level="fault_enumeration", exhaustive_note="every fault position k of each generated (state, operation) pair", parts=[
         dict(prop="REG", harness="api_pbt", quick=dict(count=0, workers=1), thorough=dict(count=0, workers=1)),  # regression scenarios
         dict(prop="C14", harness="api_pbt", quick=dict(count=2400, workers=8), thorough=dict(count=80000, workers=16),
@@ -175,6 +198,32 @@ RULES = {
            "verify() passes, every stored blob decodes, 1.x Crate.path / CrateParentList / CrateHierarchy all describe the model forest, 2.x "
            "nextListId / nextEntityId chains are single acyclic lists with one tail per parent / list, file name / extension (fileType) / origin "
            "ids agree with the path and the database uuid. Non-trivial = a step changed a crate with descendants or a track path.",
+    "C12": "Enumerated: every supported schema (18) x {created on disk, created as temporary database}. The 62 reference dumps of "
+           "testdata/ref are hydrated by the harness itself (own SQLite connection, script executed verbatim) and assigned to a schema by "
+           "their own Information row (and product line for the two 1.18.0 variants). Oracle: the multiset of (type, name, tbl_name, "
+           "normalise(sql)) of the created library's sqlite_master (m.db and p.db; temporary libraries are read through the library's own "
+           "connection obtained from the sqlite3_step shim) equals that of a reference of the same version, where normalise strips identifier "
+           "quoting, collapses whitespace and drops whitespace next to ( ) , ; = < > and nothing else; stored version numbers match in both "
+           "files; verify() passes; reload reports the requested version. The normaliser is itself property-tested on the reference DDL: random "
+           "re-spacing / re-quoting must compare equal, deleting or altering one token must compare unequal. Non-trivial = (schema, form) "
+           "pairs that have a reference (17 of 18 schemas); distinct = pairs.",
+    "C13": "Enumerated: stored version triples major 0..4 x minor 0..25 x patch 0..4 (650, containing all 18 supported triples and all their "
+           "neighbours) x both directory layouts, 20 outlier triples (negative, 2^31-1, values that alias supported numbers modulo 256/65536) "
+           "x both layouts, the presence matrix of m.db / Database2/m.db / missing directory, and both 1.18.0 variants with and without data. "
+           "A library of the nearest supported schema is created by the library, closed, and the harness's own connection rewrites the "
+           "Information version columns (both files for 1.x). Oracle = a literal decision table of the 18 supported triples: supported triple "
+           "in its own layout loads as exactly that schema (right 1.18.0 variant); any other triple -> unsupported_database; no database or "
+           "both layouts -> database_not_found; database_exists() consistent. Tolerances: (3,0,0) may load as 3.0.0 or be rejected; a supported "
+           "triple in the other layout may load as exactly that schema or be rejected. Non-trivial = triples within distance 1 of a supported one.",
+    "C17": "Case = schema x file (m.db / p.db / Database2/m.db) x one of 16 mutation kinds (drop/rename/add table, view; add/drop/rename "
+           "column; change a column's declared type, add NOT NULL, add DEFAULT; drop/add index, flip an index's uniqueness; reorder two columns) "
+           "applied to a freshly created on-disk library by the harness's own connection (ALTER TABLE or a writable_schema edit of the stored "
+           "DDL found by a top-level comma split); the element is chosen from the library's own sqlite_master / table_info. Mutants failing "
+           "integrity_check or not loadable are discarded and counted. Oracle: an independently computed structural fingerprint (tables, views, "
+           "per table (column, type, notnull, default, pk) and (index, unique, origin, partial, columns)); fingerprint changed => verify() must "
+           "throw database_inconsistency; unchanged (equivalent mutant) => verify() must pass. Second part, enumerated: every reference dump, "
+           "hydrated by the library's own create_database_from_scripts, must pass verify() when its version is supported. Non-trivial = "
+           "effective mutants; distinct = (schema, file, mutation, element).",
     "C14": "Case = schema x one of the 40 public mutating operations (create_track, update, remove_track, the 26 setters, the four crate "
            "creates, set_name, set_parent, both add_track overloads, crate::remove_track, clear_tracks, remove_crate) x a prior state (two "
            "tracks with performance data, crates A > C and B, three memberships, plus 0..4 generated operations) x EVERY fault position: a dry "
@@ -251,6 +300,10 @@ ASSUMPTIONS = {
     "C09": ["a set_parent within the same parent may leave the crate in place or move it to the end"],
     "C10": ["the library's own random uuid and timestamps are not part of the comparison except that they must be stable across the reopen"],
     "C11": ["the model forest (C07's model) is the reference for the redundant crate encodings"],
+    "C12": ["reference dumps under testdata/ref are faithful dumps of databases written by the Engine software of that version",
+            "1.6.0 has no reference dump (only version numbers, verify() and reload are checked there)"],
+    "C13": ["the Information row is the only place the version is stored (both files for 1.x)"],
+    "C17": ["triggers are not part of the property's list of structural elements", "SQLite PRAGMA table_info / index_list / index_info report the structure faithfully"],
     "C14": ["fault model: a statement fails without executing (SQLITE_IOERR); power loss / torn pages are outside the property",
             "BEGIN and ROLLBACK are never failed; COMMIT is"],
     "C15": ["removed handles are used only as the class comments permit", "allocations above 256 MiB become std::bad_alloc"],
@@ -282,6 +335,8 @@ ENGINES = [
          kind_free_text="12 libFuzzer targets (clang, ASan+UBSan) with the C03/C04/C05 oracles inside the target"),
     dict(name="table_pbt", path="harness/table_pbt.cpp", serves_properties=["C18"],
          kind_free_text="rapidcheck-driven operation sequences on the 2.x table API vs a row model (49 track columns via a column table, playlists, entities)"),
+    dict(name="schema_pbt", path="harness/schema_pbt.cpp", serves_properties=["C12", "C13", "C17"],
+         kind_free_text="finite enumerations (schemas x forms, version-triple box x layouts, reference dumps) and generated schema mutations; differential vs reference dumps, literal decision table, independent structural fingerprint"),
     dict(name="numeric_pbt", path="harness/numeric_pbt.cpp", serves_properties=["C19", "C20"],
          kind_free_text="rapidcheck-driven generated inputs vs exact-integer reference and validity predicates"),
 ]
@@ -315,6 +370,18 @@ MANIFEST_TEXT = {
                 technique='property-based testing with an independent reader (own SQLite connection + refcodec) as oracle after every step',
                 text='Independent structural reading of the stored files after every operation of generated histories.',
                 note="Trusts SQLite's integrity/foreign-key checks and refcodec."),
+    "C12": dict(engine="schema_pbt", design_ref="DESIGN.md 6/C12",
+                technique="exhaustive enumeration of the finite domain + differential comparison with reference dumps; the DDL normaliser is property-tested with generated respellings and token mutations",
+                text="All (schema, form) pairs are created and compared item by item with the hydrated reference dumps of the same version.",
+                note="Trusts the reference dumps and the normaliser (itself tested in both directions)."),
+    "C13": dict(engine="schema_pbt", design_ref="DESIGN.md 6/C13",
+                technique="exhaustive enumeration of a version-triple box x layouts + generated outliers against a literal decision table",
+                text="Every triple in a box containing all supported versions and their neighbours is written into a real library and loaded; the outcome must match the decision table exactly.",
+                note="Two stated tolerances (3.0.0; supported triple in the other layout)."),
+    "C17": dict(engine="schema_pbt", design_ref="DESIGN.md 6/C17",
+                technique="mutation-based property testing: generated single structural mutations vs an independent structural fingerprint; enumeration of reference dumps",
+                text="Generated single-element mutations of created libraries: verify() must reject exactly the mutants whose independently computed structure differs, and accept all reference dumps.",
+                note="Mutants that SQLite itself refuses to load are discarded (counted)."),
     "C14": dict(engine='api_pbt', design_ref='DESIGN.md 6/C14',
                 technique='property-based fault injection: generated (state, operation) pairs x exhaustive SQL-statement fault positions via a sqlite3_step shim',
                 text='For generated states and every public mutator, every statement the call executes is failed in turn; the call must throw, leave the observable state unchanged and the library usable.',
